@@ -18,7 +18,8 @@ KC == INSTANCE KetoCheck   \* the meaning of a check on the stored relationships
 CONSTANTS Mode,      \* "small" (exhaustive) or "gen" (behaviour generation)
           NRuns,     \* gen: number of behaviours
           NSteps,    \* gen: operations per behaviour
-          MaxCopies  \* small: bound on the multiplicity of a relationship
+          MaxCopies, \* small: bound on the multiplicity of a relationship
+          Faults     \* gen: some valid writes meet a storage failure
 
 Networks == {"A", "B"}
 KnownNs  == {"n1", "n2"}
@@ -76,6 +77,11 @@ DeleteQ(n, q) ==
   /\ store' = IF QValid(q) THEN [store EXCEPT ![n] = RemoveAll(@, {t \in DOMAIN @ : Match(t, q)})] ELSE store
   /\ last' = Reply("deleteq", n, <<q>>, QValid(q), {})
 
+\* a write that is valid but hits a storage failure: rejected, nothing changes
+Failed(op, n, args) ==
+  /\ store' = store
+  /\ last' = [Reply(op, n, args, FALSE, {}) EXCEPT !.reply = {"storage-fault"}]
+
 \* read operations: the reply is exactly the matching sub-bag; nothing changes
 List(n, q) ==
   /\ store' = store
@@ -112,6 +118,7 @@ NextSmall ==
        \/ \E i \in Tuples, d \in Tuples : Transact(n, <<i>>, <<d>>)
        \/ \E i \in Tuples : Transact(n, <<i, i>>, <<>>)
        \/ \E q \in Queries : DeleteQ(n, q)
+       \/ \E t \in Tuples : Failed("create", n, <<t>>)
        \/ \E q \in Queries : List(n, q)
        \/ \E t \in Tuples : Check(n, t)
   /\ Bounded
@@ -125,14 +132,18 @@ Pick(S) == {RandomElement(S)}
 Snapshot == [n \in Networks |-> BagList(store'[n])]
 NextGen ==
   /\ steps < NSteps /\ steps' = steps + 1 /\ run' = run
-  /\ \E k \in Pick(1..10), nk \in Pick(1..4) :
-       LET n == IF nk = 4 THEN "B" ELSE "A" IN
-       CASE k \in {1, 2, 3} -> \E t \in Pick(Tuples) : Create(n, t)
+  /\ \E k \in Pick(1..10), nk \in Pick(1..4), flt \in Pick(1..6) :
+       LET n == IF nk = 4 THEN "B" ELSE "A"
+           fault == Faults /\ flt = 1        \* one write in six meets a failing storage statement
+           AllValid(ts) == \A j \in 1..Len(ts) : Valid(ts[j])
+       IN
+       CASE k \in {1, 2, 3} -> \E t \in Pick(Tuples) : IF fault /\ Valid(t) THEN Failed("create", n, <<t>>) ELSE Create(n, t)
          [] k \in {4, 5} -> \E i1 \in Pick(Tuples), i2 \in Pick(Tuples), d1 \in Pick(Tuples), d2 \in Pick(Tuples),
                               shape \in Pick(1..4) :
-                              Transact(n, CASE shape = 1 -> <<i1>> [] shape = 2 -> <<i1, i2>> [] shape = 3 -> <<i1, i1>> [] OTHER -> <<>>,
-                                          CASE shape = 1 -> <<d1>> [] shape = 2 -> <<>> [] shape = 3 -> <<d1, d2>> [] OTHER -> <<d1>>)
-         [] k \in {6, 7} -> \E q \in Pick(Queries) : DeleteQ(n, q)
+                              LET ins == CASE shape = 1 -> <<i1>> [] shape = 2 -> <<i1, i2>> [] shape = 3 -> <<i1, i1>> [] OTHER -> <<>>
+                                  del == CASE shape = 1 -> <<d1>> [] shape = 2 -> <<>> [] shape = 3 -> <<d1, d2>> [] OTHER -> <<d1>>
+                              IN IF fault /\ AllValid(ins) /\ AllValid(del) THEN Failed("transact", n, <<ins, del>>) ELSE Transact(n, ins, del)
+         [] k \in {6, 7} -> \E q \in Pick(Queries) : IF fault /\ QValid(q) THEN Failed("deleteq", n, <<q>>) ELSE DeleteQ(n, q)
          [] k = 8 -> \E t \in Pick(Tuples) : Check(n, t)
          [] OTHER -> \E q \in Pick(Queries) : List(n, q)
   /\ hist' = Append(hist, [op |-> last'.op, nid |-> last'.nid, args |-> last'.args, ok |-> last'.ok,
